@@ -312,3 +312,47 @@ CONTRACTS[M2 + "mask_2d_elliptical_annular_from"].gen = _g_ctor(lambda a, b, c: 
 CONTRACTS[M2 + "elliptical_radius_from"].gen = lambda rng, tier: (
     {"y_scaled": rng.uniform(-3, 3), "x_scaled": rng.uniform(-3, 3), "angle": rng.uniform(-180, 180), "axis_ratio": rng.uniform(0.1, 1.0)}
     for _ in range(gens.budget(tier, 200, 3000)))
+
+
+# ------------------------------------------------------------------------------------------------ engine C generators for the grid kernels
+def _g_geom(rng):
+    shape = (rng.randint(1, 7), rng.randint(1, 7))
+    ps = rng.choice([(1.0, 1.0), (0.5, 2.0), (2.0, 0.25), (0.1, 0.3), (3.0, 3.0)])
+    og = rng.choice([(0.0, 0.0), (0.5, -1.0), (-3.0, 2.0), (100.0, -50.0)])
+    return shape, ps, og
+
+
+def _g_pix(rng, tier):
+    for _ in range(gens.budget(tier, 300, 4000)):
+        shape, ps, og = _g_geom(rng)
+        n = rng.randint(0, 6)
+        yield {"grid_pixels_2d_slim": gens.reals(rng, (n, 2), -3.0, 10.0, special=False), "shape_native": shape, "pixel_scales": ps, "origin": og}
+
+
+def _g_sc(rng, tier):
+    for _ in range(gens.budget(tier, 300, 4000)):
+        (H, W), ps, og = _g_geom(rng)
+        n = rng.randint(0, 6)
+        # strictly inside a pixel of the frame (the statement's domain), away from pixel boundaries
+        pts = np.array([[og[0] + ((H - 1) / 2.0 - rng.randrange(H) + rng.uniform(-0.45, 0.45)) * ps[0],
+                         og[1] + (rng.randrange(W) - (W - 1) / 2.0 + rng.uniform(-0.45, 0.45)) * ps[1]] for _ in range(n)]).reshape(n, 2)
+        yield {"grid_scaled_2d_slim": pts, "shape_native": (H, W), "pixel_scales": ps, "origin": og}
+
+
+def _g_via_mask(rng, tier):
+    for m in gens.all_masks(gens.budget(tier, 6, 9)):
+        _, ps, og = _g_geom(rng)
+        yield {"mask_2d": m, "pixel_scales": ps, "origin": og}
+    for _ in range(gens.budget(tier, 200, 3000)):
+        _, ps, og = _g_geom(rng)
+        yield {"mask_2d": gens.random_mask(rng, 7, 7), "pixel_scales": ps, "origin": og}
+
+
+CONTRACTS[G + "grid_scaled_2d_slim_from"].gen = _g_pix
+for _k in ("grid_pixels_2d_slim_from", "grid_pixel_centres_2d_slim_from", "grid_pixel_indexes_2d_slim_from"):
+    CONTRACTS[G + _k].gen = _g_sc
+CONTRACTS[G2 + "grid_2d_slim_via_mask_from"].gen = _g_via_mask
+# integer twins round the query points, which puts them ON pixel boundaries (where the statement says nothing and floating
+# point decides): not a valid way to make inputs for these two
+for _k in ("grid_pixel_centres_2d_slim_from", "grid_pixel_indexes_2d_slim_from"):
+    CONTRACTS[G + _k].no_int_twin = True
